@@ -1,5 +1,5 @@
 SPECIFICATION Spec
-CONSTANT MaxN = 3
+CONSTANT MaxN = 2
 INVARIANT ReadBack
 INVARIANT LinesOK
 INVARIANT BreakInsideRejected
@@ -8,4 +8,5 @@ INVARIANT DropAmpRejected
 INVARIANT LongRejected
 INVARIANT CommentExempt
 INVARIANT InterleaveAccepted
+INVARIANT LoneReported
 CHECK_DEADLOCK FALSE
